@@ -27,7 +27,7 @@ import (
 
 const Root = "/verif"
 
-// Out is the check's real standard output. While a check runs, os.Stdout is pointed at /dev/null because the
+// Out is the check's real standard output. While a check runs, os.Stdout is nil (writes are refused without a system call) because the
 // library itself prints debug lines to it (state resolution v2.1 does); only the harness writes results.
 var Out = os.Stdout
 
@@ -83,9 +83,9 @@ func Main(id, level string, body func(r *Run)) {
 	flag.Parse()
 	logrus.SetOutput(io.Discard)       // the library logs warnings on scripted faults; they are not results
 	logrus.SetLevel(logrus.PanicLevel) // and formatting them costs more than the checks themselves
-	if devnull, err := os.OpenFile(os.DevNull, os.O_WRONLY, 0); err == nil {
-		os.Stdout = devnull
-	}
+	// a nil *os.File refuses writes without a system call: the library's fmt.Printf calls (v2.1 resolution prints every
+	// conflicted subgraph it finds) then cost formatting only
+	os.Stdout = nil
 	if *tier == "" {
 		*tier = "quick"
 	}
